@@ -186,7 +186,7 @@ theorem inScopeU_iff (o : TraceOpts) : âˆ€ (t : Ty) (v : Val), fragE t = true â†
     | _ => simp [wt] at hw
   | t, .bytes x, hf, hw => by
     cases t with
-    | prim p => cases p <;> simp [wt, Prim.wt] at hw <;> simp [inScopeU, ser, noneAtUnion]
+    | prim p => cases p <;> simp [wt, Prim.wt] at hw <;> simp [inScopeU, ser, noneAtUnion, mappingDT, primDT]
     | _ => simp [wt] at hw
   | t, .unit, hf, hw => by
     cases t with
